@@ -104,8 +104,10 @@ public:
     static suspend_point<void> resume_chain_set_ready(awaiter_collector &chain, awaiter &ready_state) {
         //acquire memory order, we need to see modifications made by other thread during registration
         //this is first operation of the thread of awaiters
+        //release memory order, because the result must be visible to a thread, which finds the chain
+        //marked ready (without being resumed through the chain)
         COCLS_VERIF_POINT(aw_chain_pre);
-        return resume_chain_lk(chain.exchange(&ready_state, std::memory_order_acquire));
+        return resume_chain_lk(chain.exchange(&ready_state, std::memory_order_acq_rel));
     }
     static suspend_point<void> resume_chain_lk(awaiter *chain) {
         suspend_point<void> ret;
